@@ -107,8 +107,25 @@ def build_input(exe, sh):
         z = b"".join(bz2.compress(p, r.randrange(1, 10)) for p in parts)
         d = b"".join(parts)
     elif fam in ("flood", "flood-runs"):
-        d = corpus.magic_plain(min(nb, 30) * 100000 - 5000, sh["seed"], runs=(fam == "flood-runs"))
-        z = bz2.compress(d, 1)
+        # spurious block-header candidates in every block header (symbol-map planting), some of them
+        # complete decodable false blocks that expand to many output buffers
+        kind, arg = [("junk", 90), ("hdr_error", 0), ("valid_run", 2000), ("valid_run", 200000),
+                     ("magic-alphabet", 0)][sh["seed"] % 5]
+        size = min(nb, 30) * 100000 - 5000
+        if kind == "magic-alphabet":
+            d = corpus.magic_plain(size, sh["seed"], runs=(fam == "flood-runs"))
+        else:
+            d, _ = corpus.planted_plain(corpus.false_block(kind, arg, sh["seed"]), size, sh["seed"])
+        if fam == "flood-runs":
+            # many tiny streams: one candidate per ~100 bytes of input
+            parts = [d[i:i + 700] for i in range(0, min(len(d), 700 * 4 * nb), 700)]
+            if kind != "magic-alphabet":
+                parts = [corpus.planted_plain(corpus.false_block(kind, arg, sh["seed"]), 300, sh["seed"] + i)[0]
+                         for i in range(4 * nb)]
+            z = b"".join(bz2.compress(p, 1) for p in parts)
+            d = b"".join(parts)
+        else:
+            z = bz2.compress(d, 1)
     elif fam == "runheavy":
         segs = []
         for _ in range(min(nb, 12)):
